@@ -10,7 +10,11 @@ for pid in ids:
     f = os.path.join(ROOT, "checks", pid + ".py")
     if not os.path.exists(f):
         continue
-    m = importlib.import_module(pid)
+    try:
+        m = importlib.import_module(pid)
+    except Exception as e:           # a check still being written must not break the manifest
+        print("skip %s: %s" % (pid, e))
+        continue
     meta = getattr(m, "META", None)
     if not meta or not meta.get("claimed", True):
         continue
